@@ -164,6 +164,7 @@ def build_plan(choice: Choice, tier):
     if p["reuse_after_flush"] and not p["reuse_forked_early"]:
         m = d(4, "reuse.mode")
         p["reuse_mode"] = "same-writer" if m == 2 and not p["write_fault"] else ("parent" if m == 3 and p["parent_stores_first"] and not p["write_fault"] else "fresh")
+        p["reuse_competitor"] = p["reuse_mode"] == "same-writer" and d(2, "reuse.competitor") == 1
     else:
         p["reuse_mode"] = "forked-early" if p["reuse_forked_early"] else None
     p["granularity"] = "line" if d(6, "granularity") != 5 else "sync"
@@ -411,6 +412,17 @@ def scenario(k: Kernel, plan, obs):
             gate.set()
         elif persistent is not None:
             w = persistent
+            if plan.get("reuse_competitor") and plan.get("reuse_mode") == "same-writer":
+                # another process registers with the flushed storage first: the long-lived writer must not take
+                # that process's file for its own
+                # ... and goes on storing while the long-lived writer works again
+                comp = Actor(storage, [["store", plan["n"] + 7, "stored by a fresh writer after the flush"]], "w-fresh", True, hist2)
+                comp.second = ([["store", plan["n"] + 8, "and one more by the fresh writer"]], hist2, ctx.Event(), ctx.Event())
+                comp.start()
+                comp.second[2].wait()
+                comp.second[3].set()
+                w.second[3].set()
+                comp.join()
             w.second[3].set()
         elif plan.get("reuse_mode") == "parent":
             # the parent had stored before the flush; now it stores into the flushed storage
@@ -599,7 +611,10 @@ def evaluate(plan, obs, k, kind, info):
     ru = obs.get("reused")
     if ru is not None:
         exp = [t for _, t in plan["reuse_after_flush"]]
-        if ru["list"] != exp or ru["reads"] != exp or ru["len"] != len(exp) or ru["contiguous"] is not True or ru["exit"] != 0:
+        extra = ["stored by a fresh writer after the flush", "and one more by the fresh writer"] \
+            if (plan.get("reuse_competitor") and plan.get("reuse_mode") == "same-writer") else []
+        if ru["list"] != exp + extra or ru["reads"] != exp or ru["len"] != len(exp + extra) \
+                or ru["contiguous"] is not (not extra) or ru["exit"] != 0:
             viol.append({"class": "flush", "site": "reuse-after-flush",
                          "message": f"storing {exp} into the flushed storage gave {ru}"})
     if kind == "stall":
